@@ -8,6 +8,7 @@
 package c11
 
 import (
+	"flag"
 	"fmt"
 	"strconv"
 	"strings"
@@ -308,6 +309,21 @@ func (Scenario) Run(c choice.Chooser, opt sim.Options) (res sim.Result) {
 		if c.Intn("g:twin", 3) == 2 {
 			// look-alike sources: same name, same value, same version
 			v = []string{"a", "b"}[c.Intn("g:twinval", 2)]
+		}
+		if k == 0 && c.Intn("g:cli", 4) == 3 {
+			// a parameter whose value comes from a command-line flag until
+			// the first update: default < flag < applied value
+			pv := &parameter.Value[string]{Name: "S", DefaultValue: "default-" + v, CLI: &parameter.CliConfig[string]{FlagName: fmt.Sprintf("s%d", s), Usage: "u"}}
+			fs := flag.NewFlagSet("c11", flag.ContinueOnError)
+			pv.InitializeForCLI(fs)
+			if err := fs.Parse([]string{fmt.Sprintf("-s%d", s), v}); err != nil {
+				panic(err)
+			}
+			w.srcVal = append(w.srcVal, v)
+			w.params = append(w.params, pv)
+			w.values = append(w.values, nil)
+			res.Count("probe:cli-flag-source", 1)
+			continue
 		}
 		w.srcVal = append(w.srcVal, v)
 		if k == 0 {
